@@ -284,8 +284,15 @@ struct ExCheck : Check {
 			size_t blocks = probe.in_pos / 2;
 			for (size_t i = 0; i < blocks; i++) tx += "T" + std::to_string(r.below(1000)) + (r.chance(1, 3) ? "\nU" + std::to_string(i) : "") + "\n.\n";
 		}
+		// (the state the undo returns to: the text before the global itself, not before the yank that may
+		// precede it; and an undo brings back text, not registers)
+		saved_before_g = g.m;
 		g.emit(cmd, tx, "g");
-		if (r.chance(2, 3)) { Step s; s.keys = std::string(g.vi ? ":" : "") + "u\n"; s.meta = Json::obj(); s.meta.set("k", "undo"); g.p.steps.push_back(s); g.m = saved_before_g; g.cur_known = false; }
+		if (r.chance(2, 3)) {
+			Step s; s.keys = std::string(g.vi ? ":" : "") + "u\n"; s.meta = Json::obj(); s.meta.set("k", "undo"); g.p.steps.push_back(s);
+			auto regs_now = g.m.regs;
+			g.m = saved_before_g; g.m.regs = regs_now; g.cur_known = false;
+		}
 	}
 	ExModel saved_before_g;
 
